@@ -33,6 +33,8 @@ def guard(e):
     exceptions of the machinery itself (z3 API misuse, unsupported operation) must never become a verdict"""
     if isinstance(e, (z3.Z3Exception, Inconclusive)):
         raise e
+    if isinstance(e, (TypeError, AttributeError)) and any(n in str(e) for n in ('SReal', 'SInt', 'SBool', 'SArr', "'ND'", 'SBV', 'Tok', 'Sym')):
+        raise Unsupported('operation not supported by a proxy: %s' % e)
 
 
 QUERY_TIMEOUT_MS = 120000
@@ -72,6 +74,34 @@ def _check(solver, *extra):
 def check_sat(solver, *extra):
     """counted, timed check; 'unknown' raises Inconclusive"""
     return _check(solver, *extra)
+
+
+def nra_check(assertions, timeout_ms=100000):
+    """decide a conjunction with nlsat: applications of uninterpreted functions are replaced by fresh reals
+    (functional consistency must already be stated by explicit axioms on the occurring instances)"""
+    apps = {}
+
+    def walk(t):
+        if z3.is_app(t):
+            d = t.decl()
+            if d.kind() == z3.Z3_OP_UNINTERPRETED and t.num_args() > 0:
+                if t.get_id() not in apps:
+                    apps[t.get_id()] = (t, z3.Real('uf!%s!%d' % (d.name(), len(apps))))
+            for a in t.children():
+                walk(a)
+    for a in assertions:
+        walk(a)
+    subs = [(t, v) for t, v in apps.values()]
+    # innermost applications first is not needed: arguments here are UF-free
+    s = z3.Tactic('qfnra-nlsat').solver()
+    s.set('timeout', timeout_ms)
+    for a in assertions:
+        s.add(z3.substitute(a, *subs) if subs else a)
+    Stats.queries += 1
+    t0 = time.time()
+    r = str(s.check())
+    Stats.solver_s += time.time() - t0
+    return r, s
 
 
 class Ctx:
@@ -504,6 +534,14 @@ class SReal:
 
     def __rtruediv__(s, o):
         return SReal(rv(o)).__truediv__(s)
+
+    def __mod__(s, o):
+        oz = rv(o)
+        if not z3.is_rational_value(z3.simplify(oz)):
+            raise Unsupported('SReal % symbolic')
+        if not decide(oz > 0):
+            raise Unsupported('SReal % non-positive')
+        return SReal(s.z - oz * z3.ToReal(z3.ToInt(s.z / oz)))   # python: result has the sign of the divisor
 
     def __neg__(s):
         return SReal(-s.z)
